@@ -1,5 +1,5 @@
 SPECIFICATION Spec
 CONSTANTS
   Mode = "sym"
-INVARIANTS NoError StoreIsRoundFunction RoundComplete
+INVARIANT Report
 CHECK_DEADLOCK FALSE
